@@ -34,6 +34,14 @@ abbrev stWriteDcdFailure : Nat := 13
 abbrev stWriteCsfFailure : Nat := 14
 abbrev stSkipDcdHeaderFailure : Nat := 15
 abbrev maxRead : Nat := 64
+abbrev ridCmd : Nat := 1
+abbrev ridData : Nat := 2
+abbrev ridHab : Nat := 3
+abbrev ridRet : Nat := 4
+abbrev defaultPackSize : Nat := 1024
+abbrev retSize : Nat := 64
+abbrev cbwSignature : Nat := 0x43544C42
+abbrev cbwFwDownload : Nat := 2
 end Spec
 
 /-- `v.to_bytes(n, "big")` (truncating) -/
@@ -127,11 +135,58 @@ def Rom.step (r : Rom) (w : Bytes) : Rom × Bytes :=
             ({ r1 with mem := splice r.mem c.address (leBytes nb c.value) }, r.hab ++ be 4 Spec.rWriteDataOk)
           else (r1, r.hab ++ be 4 0)
       else if c.tag = Spec.cWriteFile ∨ c.tag = Spec.cWriteDcd ∨ c.tag = Spec.cWriteCsf then
-        ({ r1 with recv := some (c.tag, c.address, c.count) }, [])
+        if c.count = 0 then
+          -- nothing to wait for: answer at once
+          match forced with
+          | some v => (r1, r.hab ++ be 4 v)
+          | none =>
+            if c.tag = Spec.cWriteFile ∧ r.mem.length < c.address then (r1, r.hab ++ be 4 0)
+            else (r1, r.hab ++ be 4 (okValue c.tag))
+        else ({ r1 with recv := some (c.tag, c.address, c.count) }, [])
       else if c.tag = Spec.cErrorStatus then (r1, r.hab ++ be 4 (forced.getD r.errStatus))
       else if c.tag = Spec.cSkipDcdHeader then (r1, r.hab ++ be 4 (forced.getD Spec.rSkipDcdHeaderOk))
       else if c.tag = Spec.cJumpAddress then ({ r1 with jumped := some c.address }, r.hab)
       else (r1, r.hab)
+
+/-! ### the ROM behind USB-HID reports -/
+
+def padTo (n : Nat) (b : Bytes) : Bytes := b ++ List.replicate (n - b.length) 0
+
+/-- device→host reports: HAB status word (id 3), data / status in 64-byte RET reports (id 4) -/
+def habReport (b : Bytes) : Bytes := UInt8.ofNat Spec.ridHab :: b
+def retReports : Nat → Bytes → List Bytes
+  | 0, _ => []
+  | f + 1, b => if b.isEmpty then [] else (UInt8.ofNat Spec.ridRet :: padTo Spec.retSize (b.take Spec.retSize)) :: retReports f (b.drop Spec.retSize)
+
+/-- serial answer `hab(4) ++ rest` as reports -/
+def toReports (out : Bytes) : List Bytes :=
+  if out.isEmpty then [] else habReport (out.take 4) :: retReports (out.length) (out.drop 4)
+
+/-- one host report in, the reports the ROM sends in reaction out.  A data phase collects the payloads of DATA
+    reports (id 2) until `count` bytes arrived (padding ignored); the data is then handed to the serial ROM logic. -/
+structure HidRom where
+  rom : Rom
+  buf : Bytes := []
+  deriving DecidableEq, Repr
+
+def HidRom.step (x : HidRom) (w : Bytes) : HidRom × List Bytes :=
+  match w with
+  | [] => (x, [])
+  | rid :: payload =>
+    match x.rom.recv with
+    | some (_, _, n) =>
+      if rid.toNat = Spec.ridData then
+        let buf := x.buf ++ payload.take (n - x.buf.length)
+        if buf.length = n then
+          let (r', out) := x.rom.step buf
+          ({ rom := r', buf := [] }, toReports out)
+        else ({ x with buf := buf }, [])
+      else (x, [])
+    | none =>
+      if rid.toNat = Spec.ridCmd then
+        let (r', out) := x.rom.step (payload.take 16)
+        ({ rom := r', buf := [] }, toReports out)
+      else (x, [])
 
 /-! ## host -/
 
@@ -142,9 +197,15 @@ inductive SErr where
   | fuel
   deriving DecidableEq, Repr
 
+inductive Tr where
+  | serial | hid
+  deriving DecidableEq, Repr
+
 inductive Peer where
-  | script (chunks : List Bytes)
+  /-- replay: the i-th host write releases the i-th chunk (serial: concatenated, HID: its reports) -/
+  | script (chunks : List (List Bytes))
   | live (r : Rom)
+  | liveHid (r : HidRom)
   deriving DecidableEq
 
 structure Host where
@@ -155,18 +216,30 @@ structure Host where
   expectStatus : Bool := true
   opened : Bool := true
   rx : Bytes := []
+  rxR : List Bytes := []
   txRev : List Bytes := []
-  relRev : List Bytes := []
+  relRev : List (List Bytes) := []
   peer : Peer := .script []
+  tr : Tr := .serial
+  /-- `HID_REPORT["CMD"/"DATA"]` size: a module-level table that `SDPS.write_file` reconfigures (and that stays so) -/
+  packSize : Nat := Spec.defaultPackSize
+  fuelHint : Nat := 0
   deriving DecidableEq
 
-def Host.write (h : Host) (w : Bytes) : Host :=
-  let (peer', out) : Peer × Bytes :=
+/-- `device.write(w)` (does not touch `expect_status`) -/
+def Host.devWrite (h : Host) (w : Bytes) : Host :=
+  let (peer', out) : Peer × List Bytes :=
     match h.peer with
     | .script [] => (.script [], [])
     | .script (c :: cs) => (.script cs, c)
-    | .live r => let (r', o) := r.step w; (.live r', o)
-  { h with txRev := w :: h.txRev, relRev := out :: h.relRev, peer := peer', rx := h.rx ++ out, expectStatus := true }
+    | .live r => let (r', o) := r.step w; (.live r', [o])
+    | .liveHid r => let (r', o) := r.step w; (.liveHid r', o)
+  match h.tr with
+  | .serial => { h with txRev := w :: h.txRev, relRev := out :: h.relRev, peer := peer', rx := h.rx ++ out.flatten }
+  | .hid => { h with txRev := w :: h.txRev, relRev := out :: h.relRev, peer := peer', rxR := h.rxR ++ out }
+
+/-- serial `_send_frame(w)`: sets `expect_status` and writes -/
+def Host.write (h : Host) (w : Bytes) : Host := { h.devWrite w with expectStatus := true }
 
 def S (α : Type) : Type := Host → Except SErr α × Host
 
@@ -190,17 +263,43 @@ instance : Monad S where
 end S
 open S
 
-/-- `_send_frame(data)`: sets `expect_status` and writes -/
-def sendFrame (w : Bytes) : S Unit := modify (·.write w)
+/-- `SDPBulkProtocol._create_frames`: report id, a chunk of at most `size` bytes, zero padding to `size` -/
+def framesOf (rid size : Nat) : Nat → Bytes → List Bytes
+  | 0, _ => []
+  | f + 1, b =>
+    if b.isEmpty then []
+    else (UInt8.ofNat rid :: padTo size (b.take size)) :: framesOf rid size f (b.drop size)
 
-/-- `SDPSerialProtocol.read(length)`: exactly `length or 4` bytes, or a timeout (any exception) -/
+def hidFrames (rid size : Nat) (b : Bytes) : List Bytes := framesOf rid size b.length b
+
+/-- `write_command` / `write_data` of the protocol in use -/
+def sendFrame (rid : Nat) (w : Bytes) : S Unit := fun h =>
+  match h.tr with
+  | .serial => (.ok (), h.write w)
+  | .hid =>
+    if h.packSize = 0 ∧ ¬ w.isEmpty then (.error .other, h)     -- the frame loop would not advance; never configured so
+    else (.ok (), (hidFrames rid h.packSize w).foldl (fun x f => x.devWrite f) h)
+
+/-- `protocol.read(length)`: serial: exactly `length or 4` bytes or a timeout; HID: the next report, `hab` = its id is 3 -/
 def protoRead (length : Nat) : S (Bool × Bytes) := fun h =>
-  let n := if length = 0 then 4 else length
-  if n ≤ h.rx.length ∧ ¬ h.rx.isEmpty then (.ok (h.expectStatus, h.rx.take n), { h with rx := h.rx.drop n })
-  else (.error .other, { h with rx := [] })
+  match h.tr with
+  | .serial =>
+    let n := if length = 0 then 4 else length
+    if n ≤ h.rx.length ∧ ¬ h.rx.isEmpty then (.ok (h.expectStatus, h.rx.take n), { h with rx := h.rx.drop n })
+    else (.error .other, { h with rx := [] })
+  | .hid =>
+    match h.rxR with
+    | [] => (.error .other, h)
+    | r :: rs =>
+      match r with
+      | [] => (.error .other, { h with rxR := rs })
+      | rid :: payload => (.ok (rid.toNat = Spec.ridHab, payload), { h with rxR := rs })
+
+/-- `CmdResponse.value`: `unpack_from(">I", raw_data)` -/
+def respValue (raw : Bytes) : Except SErr Nat := if raw.length < 4 then .error .other else .ok (fromBe (raw.take 4))
 
 def writeCommand (c : Cmd) : S Unit :=
-  if c.fits then sendFrame c.encode else fail .other      -- struct.error
+  if c.fits then sendFrame Spec.ridCmd c.encode else fail .other      -- struct.error
 
 /-- `_process_cmd` -/
 def processCmd (c : Cmd) : S Bool := do
@@ -209,15 +308,19 @@ def processCmd (c : Cmd) : S Bool := do
   else do
     modify (fun h => { h with status := Spec.stSuccess })
     let (hab, raw) ← guardConn (do writeCommand c; protoRead 0)
-    if hab then
-      let v := fromBe raw
-      modify (fun h => { h with hab := v, status := if v ≠ Spec.rUnlocked then Spec.stHabIsLocked else h.status })
-    pure true
+    match respValue raw with               -- `str(response)` in the log line, outside the try block
+    | .error e => fail e
+    | .ok v =>
+      if hab then
+        modify (fun h => { h with hab := v, status := if v ≠ Spec.rUnlocked then Spec.stHabIsLocked else h.status })
+      pure true
 
 /-- `_read_status` -/
-def readStatus : S Nat := do
-  let (_, raw) ← guardConn (protoRead 0)
-  pure (fromBe raw)
+def readStatus : S Nat := guardConn (do
+  let (_, raw) ← protoRead 0
+  match respValue raw with
+  | .error e => fail e
+  | .ok v => pure v)
 
 /-- `_read_data(length)` -/
 def readDataLoop (length : Nat) : Nat → Bytes → S Bytes
@@ -225,11 +328,17 @@ def readDataLoop (length : Nat) : Nat → Bytes → S Bytes
   | f + 1, acc =>
     if acc.length < length then do
       modify (fun h => { h with expectStatus := false })
-      let (_, raw) ← guardConn (protoRead (min (length - acc.length) Spec.maxRead))
-      readDataLoop length f (acc ++ raw)
+      let (hab, raw) ← guardConn (protoRead (min (length - acc.length) Spec.maxRead))
+      if ¬ hab then readDataLoop length f (acc ++ raw)
+      else
+        match respValue raw with
+        | .error e => fail e
+        | .ok v => do
+          modify (fun h => { h with hab := v, status := if v = Spec.rLocked then Spec.stHabIsLocked else h.status })
+          readDataLoop length f acc
     else pure (acc.take length)
 
-def readData (length : Nat) : S Bytes := readDataLoop length (length + 1) []
+def readData (length : Nat) : S Bytes := fun h => readDataLoop length (length + h.rxR.length + h.fuelHint + 1) [] h
 
 /-- `_send_data(cmd_packet, data)` -/
 def sendData (c : Cmd) (data : Bytes) : S Bool := do
@@ -239,12 +348,12 @@ def sendData (c : Cmd) (data : Bytes) : S Bool := do
     modify (fun h => { h with status := Spec.stSuccess })
     let ok ← guardConn (do
       writeCommand c
-      sendFrame data
+      sendFrame Spec.ridData data
       let (_, habRaw) ← protoRead 0
-      let hv := fromBe habRaw
+      let hv ← (fun h => (respValue habRaw, h) : S Nat)
       modify (fun h => { h with hab := if hv ≠ Spec.rUnlocked then Spec.stHabIsLocked else hv })
       let (_, stRaw) ← protoRead 0
-      let sv := fromBe stRaw
+      let sv ← (fun h => (respValue stRaw, h) : S Nat)
       modify (fun h => { h with cmdStatus := sv })
       if c.tag = Spec.cWriteDcd ∧ sv ≠ Spec.rWriteDataOk then do
         modify (fun h => { h with status := Spec.stWriteDcdFailure }); pure false
@@ -272,7 +381,22 @@ inductive Op where
   | skipDcd
   | jumpAndRun (address : Nat)
   | readStatus
+  /-- `SDPS(interface, family).write_file(data)` on the same interface; `noCmd`, `packSize` = the family's ROM parameters -/
+  | sdpsWriteFile (noCmd : Bool) (packSize : Nat) (data : Bytes)
   deriving DecidableEq, Repr
+
+/-- SDPS command block wrapper: `pack("<3IB2xbI11x", signature, tag=1, length, flags=0, command=2, swap32(length))` -/
+def cbw (length : Nat) : Bytes :=
+  leBytes 4 Spec.cbwSignature ++ leBytes 4 1 ++ leBytes 4 length ++ [0, 0, 0] ++ [UInt8.ofNat Spec.cbwFwDownload] ++ be 4 length ++
+    List.replicate 11 0
+
+/-- `SDPS.write_file(data)`: reconfigure the report size, optional command block, data; nothing is read -/
+def sdpsWriteFile (noCmd : Bool) (packSize : Nat) (data : Bytes) : S Val := guardConn (do
+  modify (fun h => { h with packSize := packSize })
+  if ¬ noCmd then
+    if 4294967296 ≤ data.length then fail .other else sendFrame Spec.ridCmd (cbw data.length)
+  sendFrame Spec.ridData data
+  pure .none)
 
 /-- the `status != OK -> status_code, raise / return False` tail shared by `write` and `skip_dcd` -/
 def statusTail (status okv failSt : Nat) : S Val := do
@@ -303,5 +427,83 @@ def runOp : Op → S Val
     let _ ← processCmd ⟨Spec.cErrorStatus, 0, 0, 0, 0⟩
     let st ← readStatus
     pure (.int st)
+  | .sdpsWriteFile nc ps d => sdpsWriteFile nc ps d
+
+/-! ## specification vocabulary (used by Properties/C10.lean) -/
+
+/-- host and live ROM are in step: nothing in flight, no data phase pending, interface open -/
+structure Synced (h : Host) (r : Rom) : Prop where
+  peer : (h.tr = .serial ∧ h.peer = .live r) ∨ (h.tr = .hid ∧ h.peer = .liveHid { rom := r, buf := [] })
+  recv : r.recv = none
+  rx : h.rx = []
+  rxR : h.rxR = []
+  opened : h.opened = true
+  pack : 16 ≤ h.packSize
+
+/-- a well-formed ROM without forced status words -/
+structure Rom.OK (r : Rom) : Prop where
+  mem_lt : r.mem.length < 4294967296
+  noforce : r.forced = []
+  err_lt : r.errStatus < 4294967296
+
+def habWord (r : Rom) : Nat := if r.locked then Spec.rLocked else Spec.rUnlocked
+
+/-- What the SDP protocol defines as the effect of one operation on the ROM, its result, `status_code` and `hab_status`
+    (no link faults; `ce` = cmd_exception).  `none`: not covered (out-of-range read: the ROM sends no data and the host
+    times out; SDPS). -/
+def specOp (ce : Bool) (r : Rom) : Op → Option (Rom × Except SErr Val × Nat × Nat)
+  | .read a n _ =>
+    if a + n ≤ r.mem.length then
+      some ({ r with ncmd := r.ncmd + 1 }, .ok (.bytes ((r.mem.drop a).take n)), (if r.locked then Spec.stHabIsLocked else Spec.stSuccess), habWord r)
+    else none
+  | .write a v _ f =>
+    let r1 := { r with ncmd := r.ncmd + 1 }
+    if (f = 8 ∨ f = 16 ∨ f = 32) ∧ a + f / 8 ≤ r.mem.length then
+      some ({ r1 with mem := splice r.mem a (leBytes (f / 8) v) }, .ok (.bool true),
+            (if r.locked then Spec.stHabIsLocked else Spec.stSuccess), habWord r)
+    else some (r1, (if ce then .error (.cmd Spec.stWriteRegisterFailure) else .ok (.bool false)), Spec.stWriteRegisterFailure, habWord r)
+  | .writeFile a d =>
+    let r1 := { r with ncmd := r.ncmd + 1 }
+    let hab := if r.locked then Spec.stHabIsLocked else Spec.rUnlocked
+    if a + d.length ≤ r.mem.length then some ({ r1 with mem := splice r.mem a d }, .ok (.bool true), Spec.stSuccess, hab)
+    else some (r1, (if ce then .error (.cmd Spec.stWriteImageFailure) else .ok (.bool false)), Spec.stWriteImageFailure, hab)
+  | .writeDcd _ _ =>
+    some ({ r with ncmd := r.ncmd + 1 }, .ok (.bool true), Spec.stSuccess, if r.locked then Spec.stHabIsLocked else Spec.rUnlocked)
+  | .writeCsf _ _ =>
+    some ({ r with ncmd := r.ncmd + 1 }, .ok (.bool true), Spec.stSuccess, if r.locked then Spec.stHabIsLocked else Spec.rUnlocked)
+  | .skipDcd =>
+    some ({ r with ncmd := r.ncmd + 1 }, .ok (.bool true), (if r.locked then Spec.stHabIsLocked else Spec.stSuccess), habWord r)
+  | .jumpAndRun a =>
+    some ({ r with ncmd := r.ncmd + 1, jumped := some a }, .ok (.bool true), (if r.locked then Spec.stHabIsLocked else Spec.stSuccess), habWord r)
+  | .readStatus =>
+    some ({ r with ncmd := r.ncmd + 1 }, .ok (.int r.errStatus), (if r.locked then Spec.stHabIsLocked else Spec.stSuccess), habWord r)
+  | .sdpsWriteFile _ _ _ => none
+
+def Op.argsOK : Op → Prop
+  | .read a n f => a < 4294967296 ∧ n < 4294967296 ∧ f < 256
+  | .write a v c f => a < 4294967296 ∧ v < 4294967296 ∧ c < 4294967296 ∧ f < 256
+  | .writeFile a d => a < 4294967296 ∧ d.length < 4294967296
+  | .writeDcd a d => a < 4294967296 ∧ d.length < 4294967296
+  | .writeCsf a d => a < 4294967296 ∧ d.length < 4294967296
+  | .jumpAndRun a => a < 4294967296
+  | _ => True
+
+/-- run a list of operations; result, `status_code` and `hab_status` after each one -/
+def runOps : List Op → Host → List (Except SErr Val × Nat × Nat) × Host
+  | [], h => ([], h)
+  | op :: ops, h =>
+    let x := runOp op h
+    let y := runOps ops x.2
+    ((x.1, x.2.status, x.2.hab) :: y.1, y.2)
+
+def specOps (ce : Bool) : List Op → Rom → Option (List (Except SErr Val × Nat × Nat) × Rom)
+  | [], r => some ([], r)
+  | op :: ops, r =>
+    match specOp ce r op with
+    | none => none
+    | some (r1, res, st, hab) =>
+      match specOps ce ops r1 with
+      | none => none
+      | some (rs, r2) => some ((res, st, hab) :: rs, r2)
 
 end SpsdkVerif.Sdp
